@@ -38,6 +38,11 @@ class C11(Check):
             "Server sessions answer every request whose TSIG fails as RFC 8945 5.3.2 says (NOTAUTH + TSIG with BADTIME / BADSIG / "
             "BADKEY): the signed BADTIME reply to a request with a right MAC and a time outside the fudge window must be the RFC MAC "
             "over the MAC of ITS request (UDP, first and later request of a TCP connection), and the requests after it are served as before. "
+            "Fudge window over the whole range of its operands: messages with a RIGHT MAC (TsigGenerate with TimeSigned preset, or the "
+            "independent signer) whose TimeSigned covers the 48-bit field (both ends, around 2^15/2^16/2^31/2^32/2^33/2^40/2^47, upper 16 bits "
+            "in use) and whose fudge is 0 (default 300), 1, 2, 299..301, 32767, 32768, 65535; clock at TimeSigned +- (B +- {0, 1, fudge, fudge+1}) "
+            "for B = 0, every power of two up to 2^63 and multiples of 2^32: success iff the distance is <= fudge, ErrTime otherwise, through "
+            "tsigVerify(now), TsigVerify and TsigVerifyWithProvider (wall clock, 120 s margin), and as a tampering of every session receive path. "
             "Model cases: name decoder, stripTsig, tsigBuffer, digest, verify, generate, "
             "chain on boundary-directed hand-made octets (both sides of every bounds check) and on sampled alterations; chain and verify "
             "cases whose implementation verdict is the one Transfer.In / Transfer.ReadMsg / Conn.ReadMsg / TsigStatus reported. A case is "
